@@ -14,14 +14,14 @@ import (
 
 // c12Base is a scripted history in canonical spelling.
 type c12Base struct {
-	Name    string     `json:"name"`
-	Status  int        `json:"status"`
-	RespCC  []string   `json:"resp_cc"` // canonical directives of the stored response
-	Expires string     `json:"expires,omitempty"`
-	LastMod string     `json:"last_mod,omitempty"`
-	OnCond  string     `json:"on_cond"` // "304" | "503" | "200"
-	CC304   []string   `json:"cc_304,omitempty"` // directives the 304 carries (re-spelled like the response's)
-	Steps   []c12Step  `json:"steps"`
+	Name    string    `json:"name"`
+	Status  int       `json:"status"`
+	RespCC  []string  `json:"resp_cc"` // canonical directives of the stored response
+	Expires string    `json:"expires,omitempty"`
+	LastMod string    `json:"last_mod,omitempty"`
+	OnCond  string    `json:"on_cond"`          // "304" | "503" | "200"
+	CC304   []string  `json:"cc_304,omitempty"` // directives the 304 carries (re-spelled like the response's)
+	Steps   []c12Step `json:"steps"`
 }
 
 type c12Step struct {
